@@ -241,6 +241,16 @@ func (h *Hist) W(op, path string, data []byte) {
 	h.stats["W."+op]++
 }
 
+// respell: now and then an argument is given under a non-normalised spelling (`./p`, `p/`, `.//p`, `a/./b`)
+func (h *Hist) respell(args []string) {
+	for i, a := range args {
+		if a == "" || !h.r.chance(1, 6) {
+			continue
+		}
+		args[i] = h.r.pick([]string{"./" + a, a + "/", ".//" + a, "./" + a + "/", strings.Replace(a, "/", "//", 1), strings.Replace(a, "/", "/./", 1)})
+	}
+}
+
 func argvLine(tz int, args []string) string {
 	var xs []string
 	for _, a := range args {
@@ -621,6 +631,7 @@ func (h *Hist) step() {
 				args = append(args, h.randPath())
 			}
 		}
+		h.respell(args)
 		if len(args) > 0 {
 			h.X(tz, append([]string{"rm"}, args...)...)
 		}
@@ -722,6 +733,7 @@ func (h *Hist) step() {
 				args = append(args, h.randPath())
 			}
 		}
+		h.respell(args)
 		if len(args) > 0 {
 			if r.chance(1, 2) {
 				h.X(tz, append([]string{"restore", "--staged"}, args...)...)
